@@ -3,4 +3,4 @@
 Require Import Pk.Search.
 Require Extraction.
 Require Import ExtrOcamlBasic.
-Extraction "c02_model.ml" search_algo v_orig v_fixed idok_of mkStream mkFile mkQpart.
+Extraction "c02_model.ml" search_algo v_orig v_fixed idok_of key_lt mkStream mkFile mkQpart.
